@@ -145,6 +145,35 @@ func c12ScenarioTable() []c12Scenario {
 		o := cOneof(m, "content", a)
 		return map[string]Val{"message": m, "oneof": o, "discriminator": constStr("kind")}
 	})
+	add("flattened oneof whose variant child collides with a proto3 optional parent field (synthetic oneof)", A, "validateOneofFlatten", true, func() map[string]Val {
+		a := fld("text", "message").msg(cMessage("T", fld("note", "string")))
+		k := fld("note", "string")
+		k.Opt = true
+		m := cMessage("Event", fld("id", "string"), k, a)
+		so := cOneof(m, "_note", k)
+		so.Fields["Desc"].(*VStruct).Fields["IsSynthetic()"] = VBool{B: true}
+		o := cOneof(m, "content", a)
+		return map[string]Val{"message": m, "oneof": o, "discriminator": constStr("kind")}
+	})
+	add("flattened oneof whose variant child collides with a member of ANOTHER oneof", A, "validateOneofFlatten", true, func() map[string]Val {
+		a := fld("text", "message").msg(cMessage("T", fld("zed", "string")))
+		z := fld("zed", "string")
+		m := cMessage("Event", fld("id", "string"), z, a)
+		cOneof(m, "other", z)
+		o := cOneof(m, "content", a)
+		return map[string]Val{"message": m, "oneof": o, "discriminator": constStr("kind")}
+	})
+	add("flattened oneof beside another oneof and an optional field, no name shared", A, "validateOneofFlatten", false, func() map[string]Val {
+		a := fld("text", "message").msg(cMessage("T", fld("body", "string")))
+		z, k := fld("zed", "string"), fld("note", "string")
+		k.Opt = true
+		m := cMessage("Event", fld("id", "string"), z, k, a)
+		cOneof(m, "other", z)
+		so := cOneof(m, "_note", k)
+		so.Fields["Desc"].(*VStruct).Fields["IsSynthetic()"] = VBool{B: true}
+		o := cOneof(m, "content", a)
+		return map[string]Val{"message": m, "oneof": o, "discriminator": constStr("kind")}
+	})
 	add("flattened oneof whose variant child collides with the discriminator", A, "validateOneofFlatten", true, func() map[string]Val {
 		a := fld("text", "message").msg(cMessage("T", fld("kind", "string")))
 		m := cMessage("Event", fld("id", "string"), a)
